@@ -598,6 +598,9 @@ object_t *clone_object (const char *str1, int num_arg) {
     }
   num_objects_this_thread = 0;
   ob = find_or_load_object (str1);
+  /* loading the blueprint ran its create(): the caller may have lost its euid meanwhile (reload_object) */
+  if (current_object && current_object != master_ob && current_object->euid == 0)
+    error ("*Attempt to create object without effective UID.");
   if (ob && !object_visible (ob))
     ob = 0;
   /*
